@@ -864,6 +864,10 @@ func c18ClientRouting(sc c18Scenario, rng *Rng, rep *c18Report) {
 			case <-time.After(3 * time.Second):
 				rep.Stats["lost"]++
 			}
+		}
+		// the ids stay registered until the round is over (Query's deferred Delete may run arbitrarily late): a
+		// further response to an id that has already been served must be dropped, not waited on
+		for id := range ids {
 			cl.Queries.Delete(id)
 		}
 		if rep.Stats["lost"] > lostBefore {
@@ -1018,6 +1022,23 @@ func c18StopScenario(sc c18Scenario, rng *Rng, rep *c18Report) {
 						}
 					}(g)
 				}
+				if sc.Kind == "tcp" { // connections that are open and quiet between two requests when Stop comes
+					for g := 0; g < 3; g++ {
+						wg.Add(1)
+						go func() {
+							defer wg.Done()
+							conn, err := dialNB(srv)
+							if err != nil {
+								return
+							}
+							defer conn.conn.Close()
+							if conn.send(nbRequest(uint16(0x7000), 0, "HOST", 0x20, 1, "", 0, nil)) == nil {
+								conn.recv(time.Second)
+							}
+							<-quit
+						}()
+					}
+				}
 			}
 		case "llmnr":
 			s, addr, done, err := startLLMNR()
@@ -1132,8 +1153,14 @@ func c18StopScenario(sc c18Scenario, rng *Rng, rep *c18Report) {
 				if r != nil {
 					rep.violate("%s: %s panicked: %v", sc.Kind, label, r)
 				}
-				if us := int(time.Since(t0) / time.Microsecond); us > rep.Stats["max_stop_us"] {
+				us := int(time.Since(t0) / time.Microsecond)
+				if us > rep.Stats["max_stop_us"] {
 					rep.Stats["max_stop_us"] = us
+				}
+				// "promptly": far below the servers' own idle read deadlines (30 s on TCP connections), which must not
+				// be what ends a stop; unloaded this takes milliseconds
+				if us > 10_000_000 {
+					rep.violate("%s: %s took %.1fs to return (called %v after start, with open connections/traffic): not a prompt stop", sc.Kind, label, float64(us)/1e6, delay)
 				}
 				return true
 			case <-time.After(60 * time.Second):
